@@ -33,7 +33,7 @@ def too_object(symbolic, T_obs):
     from contracts import C13
     from nuspacesim.simulation.geometry.region_geometry import RegionGeomToO
 
-    g = object.__new__(RegionGeomToO)
+    g = harness.partial(RegionGeomToO)
     g.sourceOBSTime = T_obs
     if symbolic:
         g.too_source = C13.TooStub(S(sp.Symbol("t0", real=True)))
